@@ -106,6 +106,7 @@ PRIMITIV_C_STATUS primitivAddParametersToOptimizer(
     size_t n) try {
   PRIMITIV_C_CHECK_NOT_NULL(optimizer);
   PRIMITIV_C_CHECK_NOT_NULL(params);
+  PRIMITIV_C_CHECK_NOT_NULL_ARRAY(params, n);
   Optimizer *cc_optimizer = to_cpp_ptr(optimizer);
   for (size_t i = 0; i < n; ++i) {
     cc_optimizer->add(*to_cpp_ptr(params[i]));
@@ -123,8 +124,10 @@ PRIMITIV_C_STATUS primitivAddModelToOptimizer(
 
 PRIMITIV_C_STATUS primitivAddModelsToOptimizer(
     primitivOptimizer_t *optimizer, primitivModel_t **models, size_t n) try {
-  Optimizer *cc_optimizer = to_cpp_ptr(optimizer);
+  PRIMITIV_C_CHECK_NOT_NULL(optimizer);
   PRIMITIV_C_CHECK_NOT_NULL(models);
+  PRIMITIV_C_CHECK_NOT_NULL_ARRAY(models, n);
+  Optimizer *cc_optimizer = to_cpp_ptr(optimizer);
   for (size_t i = 0; i < n; ++i) {
     cc_optimizer->add(*to_cpp_ptr(models[i]));
   }
@@ -166,7 +169,6 @@ PRIMITIV_C_STATUS primitivSetOptimizerIntConfig(
     uint32_t value) try {
   PRIMITIV_C_CHECK_NOT_NULL(optimizer);
   PRIMITIV_C_CHECK_NOT_NULL(key);
-  PRIMITIV_C_CHECK_NOT_NULL(value);
   std::unordered_map<std::string, uint32_t> uint_configs{{key, value}};
   std::unordered_map<std::string, float> float_configs;
   to_cpp_ptr(optimizer)->set_configs(uint_configs, float_configs);
@@ -192,7 +194,6 @@ PRIMITIV_C_STATUS primitivSetOptimizerFloatConfig(
     primitivOptimizer_t *optimizer, const char *key, float value) try {
   PRIMITIV_C_CHECK_NOT_NULL(optimizer);
   PRIMITIV_C_CHECK_NOT_NULL(key);
-  PRIMITIV_C_CHECK_NOT_NULL(value);
   std::unordered_map<std::string, uint32_t> uint_configs;
   std::unordered_map<std::string, float> float_configs{{key, value}};
   to_cpp_ptr(optimizer)->set_configs(uint_configs, float_configs);
